@@ -19,6 +19,10 @@ Found false and REPAIRED in /repo (fix: commits of C05): `less` was not a strict
 AlmostEquals' tolerance as equality (non-transitive "equal"), NaN was "equal" to every number and ±Inf was not
 equal to itself.  With the exact compareFloat the statement is proved at full strength
 (less_strict_weak_order); the old comparator is kept as `lessOld` for the two counterexample theorems.
+Also repaired: the order among records with EQUAL timestamps depended on map iteration order and goroutine
+scheduling, so paging (which re-runs the query for every page) could return an event on two pages and another
+on none; sortRRCs now breaks ties by position in the segment (§4: sortRRCs_result_unique, with the
+counterexample for the old comparator); the segment-level tie-breaks (segment key) are checked by the harness.
 -/
 import SigModel.Model.Sched
 import SigModel.Model.SortCmp
@@ -274,5 +278,87 @@ theorem head_chunk_invariant {α : Type} (limit : Nat) (batches : List (List α)
 theorem page_chunk_invariant {α : Type} (from_ size : Nat) (batches : List (List α)) :
     (headRun size 0 (scrollRun from_ batches)).flatten = (batches.flatten.drop from_).take size := by
   rw [head_chunk_invariant, scroll_chunk_invariant]
+
+/-! ## 4. records with equal timestamps: the order is a function of the data
+
+Paging re-runs the query for every page, so `pages_partition` speaks about the real server only if every
+run releases the SAME sequence.  Before the repair the order among records with equal timestamps depended
+on map iteration order and goroutine scheduling (sortRRCs compared timestamps only, sort.Slice is not
+stable, the segments of a batch were read in map order): an event could appear on two pages and another on
+none.  After the repair sortRRCs compares (timestamp, block number, record number). -/
+
+/-- the repaired comparator is a strict order … -/
+theorem rrcBefore_irrefl (m : Mode) (a : PosRec) : rrcBefore m a a = false := by
+  simp [rrcBefore]
+
+theorem rrcBefore_trans (m : Mode) (a b c : PosRec)
+    (h1 : rrcBefore m a b = true) (h2 : rrcBefore m b c = true) : rrcBefore m a c = true := by
+  unfold rrcBefore at *
+  cases m <;> simp only [Mode.before, ne_eq, ite_not, decide_eq_true_eq] at * <;>
+    (split at h1 <;> split at h2 <;> split <;> (try split at h1) <;> (try split at h2) <;> (try split) <;>
+      simp only [decide_eq_true_eq] at * <;> omega)
+
+/-- … that is total on records at different positions (two records of a segment never share block AND
+record number) -/
+theorem rrcBefore_total (m : Mode) (a b : PosRec) (h : a ≠ b) :
+    rrcBefore m a b = true ∨ rrcBefore m b a = true := by
+  have hne : a.ts ≠ b.ts ∨ a.blk ≠ b.blk ∨ a.recNum ≠ b.recNum := by
+    by_cases h1 : a.ts = b.ts
+    · by_cases h2 : a.blk = b.blk
+      · by_cases h3 : a.recNum = b.recNum
+        · exfalso; apply h; cases a; cases b; simp_all
+        · exact Or.inr (Or.inr h3)
+      · exact Or.inr (Or.inl h2)
+    · exact Or.inl h1
+  unfold rrcBefore
+  cases m <;> simp only [Mode.before, ne_eq, ite_not, decide_eq_true_eq] <;>
+    (split <;> split <;> (try split) <;> (try split) <;> simp only [decide_eq_true_eq] <;> omega)
+
+/-- C05.6 — whatever order the records of a segment come in (goroutine scheduling of the raw search) and
+whatever sorting algorithm is used (sort.Slice is not stable): two results without inversion under the
+repaired comparator that hold the same records are THE SAME list.  So the slice `sortRRCs` returns is a
+function of the set of matching records. -/
+theorem sortRRCs_result_unique (m : Mode) (l₁ l₂ : List PosRec)
+    (hnd : l₁.Nodup) (hp : l₁.Perm l₂)
+    (h₁ : SortedUnder (rrcBefore m) l₁) (h₂ : SortedUnder (rrcBefore m) l₂) : l₁ = l₂ := by
+  induction l₁ generalizing l₂ with
+  | nil => exact (List.Perm.nil_eq hp)
+  | cons a t₁ ih =>
+    cases l₂ with
+    | nil => exact absurd hp.symm (List.Perm.nil_eq · |> fun h => by cases h)
+    | cons b t₂ =>
+      have hab : a = b := by
+        by_cases hab : a = b
+        · exact hab
+        · exfalso
+          have ha2 : a ∈ t₂ := by
+            have : a ∈ b :: t₂ := hp.mem_iff.mp List.mem_cons_self
+            rcases List.mem_cons.mp this with h | h
+            · exact absurd h hab
+            · exact h
+          have hb1 : b ∈ t₁ := by
+            have : b ∈ a :: t₁ := hp.mem_iff.mpr List.mem_cons_self
+            rcases List.mem_cons.mp this with h | h
+            · exact absurd h.symm hab
+            · exact h
+          have n1 : rrcBefore m b a = false := (List.pairwise_cons.mp h₁).1 b hb1
+          have n2 : rrcBefore m a b = false := (List.pairwise_cons.mp h₂).1 a ha2
+          rcases rrcBefore_total m a b hab with h | h
+          · rw [n2] at h; cases h
+          · rw [n1] at h; cases h
+      subst hab
+      have := ih t₂ (List.nodup_cons.mp hnd).2 (List.Perm.cons_inv hp) (List.pairwise_cons.mp h₁).2
+        (List.pairwise_cons.mp h₂).2
+      rw [this]
+
+/-- … which was false of the comparator before the repair: two records of one block with the same timestamp
+may come out in either order. -/
+theorem sortRRCs_old_result_not_unique :
+    ¬ ∀ (m : Mode) (l₁ l₂ : List PosRec), l₁.Nodup → l₁.Perm l₂ →
+        SortedUnder (rrcBeforeOld m) l₁ → SortedUnder (rrcBeforeOld m) l₂ → l₁ = l₂ := by
+  intro h
+  have := h .recentFirst [⟨5, 0, 0⟩, ⟨5, 0, 1⟩] [⟨5, 0, 1⟩, ⟨5, 0, 0⟩] (by decide)
+    (List.Perm.swap _ _ _) (by unfold SortedUnder; decide) (by unfold SortedUnder; decide)
+  exact absurd this (by decide)
 
 end SigModel.Props.C05
